@@ -34,6 +34,7 @@ def run(ctx):
     r4_arff_keywords(ctx)
     r5_quote_symmetry(ctx)
     r6_missing_positions(ctx)
+    r7_csv_dialect(ctx)
 
 
 def _nested(fn, name):
@@ -289,7 +290,25 @@ def r6_missing_positions(ctx):
     ctx.ob("C12.R6", RDR, "ArffDataReader._sparse", sp, "sparse rows: a `?` value is recognised before a comma and before the closing brace", "' ?,' in" in txt and "' ?}'" in txt, stmt="sparse missing tests")
 
 
+def r7_csv_dialect(ctx):
+    ctx.rule("C12.R7", "CsvReader parses with exactly the dialect its caller gave (the csv module's RFC-4180 defaults otherwise): the constructor stores the given "
+                       "mapping unchanged and filter() hands csv.reader nothing but that mapping")
+    init = ctx.fn(RDR, "CsvReader.__init__")
+    kwarg = init.args.kwarg.arg if init.args.kwarg else None
+    st = [x for x in walk_shallow(init) if isinstance(x, ast.Assign) and any(is_self_attr(t, "_dialect") for t in x.targets)]
+    ok = len(st) == 1 and kwarg is not None and unparse(st[0].value) in (kwarg, f"dict({kwarg})", f"dict(**{kwarg})", f"{{**{kwarg}}}")
+    ctx.ob("C12.R7", RDR, "CsvReader.__init__", st[0] if st else init, "the dialect is stored as given (no injected escapechar / quoting / delimiter defaults)", ok,
+           detail={"stored": unparse(st[0].value) if st else None}, stmt="csv dialect stored")
+    flt = ctx.fn(RDR, "CsvReader.filter")
+    calls = [c for c in ast.walk(flt) if isinstance(c, ast.Call) and call_name(c) == "csv.reader"]
+    ctx.floor("C12.R7", "csv.reader calls in CsvReader.filter", len(calls), 1)
+    for c in calls:
+        kws = [(k.arg, unparse(k.value)) for k in c.keywords]
+        ctx.ob("C12.R7", RDR, "CsvReader.filter", c, "csv.reader receives only the stored dialect", kws == [(None, "self._dialect")], detail={"keywords": kws})
+
+
 CONTROLS = [
+    ("backslash escape injected into the csv dialect", RDR, M.replace_expr("CsvReader.__init__", "dialect", "{'escapechar': '\\\\', **dialect}", nth=0), "C12.R7"),
     ("only interior ? after compaction", RDR, M.replace_expr("ArffDataReader._dense", "compact[:2] == '?,' or ',?,' in compact or compact[-2:] == ',?'", "',?,' in compact"), "C12.R6"),
     ("quote checks chained", RDR, lambda tree: _chain_quote_ifs(tree), "C12.R5"),
     ("decompressor per chunk", SRC, M.replace_expr("HttpSource._byte_it_", "decomp(chunk)", "zlib.decompressobj(16 + zlib.MAX_WBITS).decompress(chunk)"), "C12.R1"),
